@@ -11,18 +11,20 @@ extern "C" void harness() {
   for (int i = 0; i < 6; i++) { nodes[i]->path_ = names[i]; id[i] = vf_register_path(nodes[i]->path_); st.vf_nodes[st.vf_nn++] = nodes[i]; }
   r0.name_ = "r0"; r1.name_ = "r1";
   Edge* es[3] = { &e0, &e1, &e2 };
-  e0.rule_ = &r0; e1.rule_ = &r1; e2.rule_ = &r0;
+  static Rule rphony; rphony.name_ = "phony";
+  e0.rule_ = &r0; e1.rule_ = &r1; e2.rule_ = PHONY2 ? &rphony : &r0;      /* a phony statement uses the built-in phony rule */
   e0.inputs_.push_back(&src); e0.outputs_.push_back(&a); a.in_edge_ = &e0; src.out_edges_.push_back(&e0);
   e1.inputs_.push_back(&a); e1.inputs_.push_back(&hdr); e1.outputs_.push_back(&b); e1.outputs_.push_back(&c); b.in_edge_ = &e1; c.in_edge_ = &e1; a.out_edges_.push_back(&e1); hdr.out_edges_.push_back(&e1);
   e2.inputs_.push_back(&b); e2.outputs_.push_back(&all); all.in_edge_ = &e2; b.out_edges_.push_back(&e2);
   int id_dep[3], id_rsp[3]; const char* deps[3] = { "a.d", "b.d", "all.d" }; const char* rsps[3] = { "a.rsp", "b.rsp", "all.rsp" };
   for (int i = 0; i < 3; i++) {
     st.edges_.push_back(es[i]);
-    es[i]->vf_phony = nondet_bool(); es[i]->vf_generator = nondet_bool();
+    /* the shape is fixed per run (GENMASK: generator statements, DEPMASK: statements with a depfile, RSPMASK: with a response file, PHONY2: the alias is phony), so that the
+       sequence of removals - and with it every container index - stays concrete; file-system answers, dry run and verbosity are symbolic */
+    es[i]->vf_phony = (i == 2) && PHONY2; es[i]->vf_generator = ((GENMASK >> i) & 1) != 0;
     id_dep[i] = -2; id_rsp[i] = -2;
-    if (nondet_bool()) { es[i]->vf_depfile = deps[i]; id_dep[i] = vf_register_path(es[i]->vf_depfile); }
-    if (nondet_bool()) { es[i]->vf_rspfile = rsps[i]; id_rsp[i] = vf_register_path(es[i]->vf_rspfile); }
-    if (i != 2) es[i]->vf_phony = false;                     /* only the alias can be phony */
+    if ((DEPMASK >> i) & 1) { es[i]->vf_depfile = deps[i]; id_dep[i] = vf_register_path(es[i]->vf_depfile); }
+    if ((RSPMASK >> i) & 1) { es[i]->vf_rspfile = rsps[i]; id_rsp[i] = vf_register_path(es[i]->vf_rspfile); }
   }
   for (int i = 0; i < VF_PATHS; i++) {
     long r = nondet_long(); __CPROVER_assume(r >= -1 && r <= 1); disk.vf_remove_ret[i] = r;
@@ -32,7 +34,7 @@ extern "C" void harness() {
   /* ---- the scope, stated from the property ---- */
   bool in_scope[3];
 #if OP == 0
-  bool generator = nondet_bool();
+  bool generator = GENARG != 0;
   for (int i = 0; i < 3; i++) in_scope[i] = !es[i]->vf_phony && (generator || !es[i]->vf_generator);
   int rc = cl.CleanAll(generator);
 #elif OP == 1
@@ -61,11 +63,12 @@ extern "C" void harness() {
   static Node lonely; lonely.path_ = "lonely"; int id_lonely = vf_register_path(lonely.path_); st.vf_nodes[st.vf_nn++] = &lonely;
   stale.path_ = "stale"; int id_stale = vf_register_path(stale.path_);
   BuildLog::Entries entries;
-  bool in_a = nondet_bool(), in_stale = nondet_bool(), in_lonely = nondet_bool(), in_src = nondet_bool();
-  if (in_a) entries.insert(std::make_pair(StringPiece(a.path_), 1));
-  if (in_stale) entries.insert(std::make_pair(StringPiece(stale.path_), 1));
-  if (in_lonely) entries.insert(std::make_pair(StringPiece(lonely.path_), 1));
-  if (in_src) entries.insert(std::make_pair(StringPiece(src.path_), 1));
+  bool in_a = (LOGMASK & 1) != 0, in_stale = (LOGMASK & 2) != 0, in_lonely = (LOGMASK & 4) != 0, in_src = (LOGMASK & 8) != 0;
+  /* entries are written directly (distinct keys), so that the container size stays concrete */
+  if (in_a) { entries.d_[entries.n_].first = StringPiece(a.path_); entries.n_++; }
+  if (in_stale) { entries.d_[entries.n_].first = StringPiece(stale.path_); entries.n_++; }
+  if (in_lonely) { entries.d_[entries.n_].first = StringPiece(lonely.path_); entries.n_++; }
+  if (in_src) { entries.d_[entries.n_].first = StringPiece(src.path_); entries.n_++; }
   int rc = cl.CleanDead(entries);
   bool expect[VF_PATHS]; for (int i = 0; i < VF_PATHS; i++) expect[i] = false;
   if (in_stale) expect[id_stale] = true;          /* recorded in the log, no longer anywhere in the graph */
@@ -94,10 +97,6 @@ extern "C" void harness() {
     }
   __CPROVER_assert(cl.cleaned_files_count_ == (cfg.dry_run ? existing : removed_ok), "post C18: the reported count is the number of files removed (dry run: that exist and would be removed)");
   __CPROVER_assert((rc != 0) == (errors > 0), "post C18: the exit status is non-zero exactly if a removal failed");
-#if OP == 0
-  if (in_scope[0] && in_scope[1] && !cfg.dry_run) __CPROVER_assert(0, "canary: two statements cleaned");
-  if (es[0]->vf_generator && !generator) __CPROVER_assert(0, "canary: generator statement kept");
-#endif
   if (cfg.dry_run) __CPROVER_assert(0, "canary: dry run");
   __CPROVER_assert(0, "canary: end of harness reachable");
 }
